@@ -156,7 +156,7 @@ PreLookup(k) == LookupB(pre.buckets, k)
 IsTarget(o, e) == /\ e # <<>>
                   /\ e[1].key = o.key
                   /\ e[1].sri = << [a |-> o.algo, d |-> o.data] >>
-                  /\ e[1].size = FSLenOf(o.data)
+                  /\ e[1].size = ToString(FSLenOf(o.data))
                   /\ e[1].meta = (IF Has(o, "meta") THEN o.meta ELSE "null") /\ e[1].raw = "none"
 
 KeysOfRun == { k \in DOMAIN buckets \cup DOMAIN pre.buckets : TRUE }
